@@ -632,6 +632,13 @@ func (mc *ModbusClient) WriteCoils(addr uint16, values []bool) (err error) {
 	mc.lock.Lock()
 	defer mc.lock.Unlock()
 
+	// check the length before narrowing it down to 16 bits
+	if len(values) > 0x7b0 {
+		err	= ErrUnexpectedParameters
+		mc.logger.Error("quantity of coils exceeds 1968")
+		return
+	}
+
 	quantity	= uint16(len(values))
 	if quantity == 0 {
 		err	= ErrUnexpectedParameters
@@ -1125,6 +1132,13 @@ func (mc *ModbusClient) writeRegisters(addr uint16, values []byte) (err error) {
 
 	mc.lock.Lock()
 	defer mc.lock.Unlock()
+
+	// check the length before narrowing it down to 16 bits
+	if len(values) > 123 * 2 {
+		err = ErrUnexpectedParameters
+		mc.logger.Error("quantity of registers exceeds 123")
+		return
+	}
 
 	payloadLength = uint16(len(values))
 	quantity      = payloadLength / 2
